@@ -35,7 +35,7 @@ def toks_of(lines):
             out.append("w")
             cur -= 1
         if kind == "open":
-            out.append("o")
+            out.append({"stmt": "O", "switch": "W"}.get(open_kind(lines, k), "o"))
             cur += 1
         elif kind == "close":
             out.append("c")
@@ -47,6 +47,16 @@ def toks_of(lines):
 
 
 CONTROL = {"if", "else", "while", "for", "do", "switch"}
+
+
+def open_kind(lines, k):
+    """what the `{` of line k belongs to: 'switch', 'stmt' (if/else/loops) or 'other' (function body, bare block)"""
+    j = k - 1
+    while j >= 0 and lines[j][2] in ("blank", "cmt", "pp"):
+        j -= 1
+    if j >= 0 and lines[j][2] == "head" and lines[j][1] and lines[j][1][0] in CONTROL:
+        return "switch" if lines[j][1][0] == "switch" else "stmt"
+    return "other"
 
 
 def shifts(lines, idx):
@@ -139,13 +149,20 @@ def run(ctx):
             progs.append((lines, tk, idx, opts, lays, lang))
         ctx.log("runs:", len(jobs))
         pipeline.run_jobs(exe, jobs, hooks=False)
-        model = common.run_driver(["indent.run %d 0 %s" % (p[3]["indent_columns"], p[1] or "-") for p in progs])
-        bad_m = bad_c = skipped = 0
+        model = common.run_driver(["indent.run2 %d %d %d %s" % (p[3]["indent_columns"], p[3].get("indent_brace", 0), p[3].get("indent_switch_case", 0),
+                                                                p[1] or "-") for p in progs])
+        base_ans = common.run_driver(["indent.run2 %d 0 0 %s" % (p[3]["indent_columns"], p[1] or "-") for p in progs])
+        common_base = {id(p[0]): [int(x) for x in a.split() if x != "-"] for p, a in zip(progs, base_ans)}
+        bad_m = bad_c = skipped = bad_f = 0
         for (lines, tk, idx, opts, lays, lang), mans in zip(progs, model):
             want = [int(x) for x in mans.split() if x != "-"]
+            # cross-check of the Lean model's offsets against the counting formula (C18_column_closed_form_offsets), computed independently
             sh = shifts(lines, idx)
-            if len(sh) == len(want):
-                want = [w + nb * opts.get("indent_brace", 0) + ns * opts.get("indent_switch_case", 0) for w, (nb, ns) in zip(want, sh)]
+            base = common_base.get(id(lines))
+            if base is not None and len(sh) == len(want) == len(base):
+                formula = [w + nb * opts.get("indent_brace", 0) + ns * opts.get("indent_switch_case", 0) for w, (nb, ns) in zip(base, sh)]
+                if formula != want:
+                    bad_f += 1
             ctx.case(tk + str(sorted(opts.items())), nontrivial="o" in tk)
             cols_per_layout = []
             for j in lays:
@@ -194,6 +211,7 @@ def run(ctx):
         ctx.cov["programs_skipped_line_structure_changed"] = skipped
         ctx.oblige("metamorphic oracle: columns independent of the original layout (%d programs x 4 layouts)" % len(progs), bad_m == 0, "oracle")
         ctx.oblige("differential: real columns = columns of the Lean stack-machine model (%d programs)" % len(progs), bad_c == 0, "corr")
+        ctx.oblige("Lean stack machine with offsets = counting formula computed from the generator's block kinds", bad_f == 0, "corr", "%d" % bad_f)
         ctx.oblige("enough programs kept their line structure to be compared", skipped * 2 < max(1, len(progs)), "internal",
                    "%d of %d skipped" % (skipped, len(progs)))
         ctx.sample({"tokens": progs[0][1], "options": progs[0][3], "model": model[0]})
